@@ -287,7 +287,32 @@ fn sc_witness(ctx: &mut Ctx) {
         }
         _ => {
             let k = root(seed).derive(0x8000_0000).derive(0x8000_0001 + seed as u32);
-            let dk = LegacyDaedalusPrivateKey::from_bytes(&k.as_bytes()).unwrap();
+            // legacy keys are any 96 bytes: also one outside the BIP32-Ed25519 normal form (third-highest
+            // bit of the scalar set), as old Daedalus wallets hold
+            let mut kb = k.as_bytes();
+            if hi >= 2 {
+                kb[31] |= 0x20;
+            }
+            let dk = LegacyDaedalusPrivateKey::from_bytes(&kb).unwrap();
+            let k = if hi >= 2 {
+                // the public key that belongs to these bytes, computed independently
+                let ext: [u8; 64] = kb[0..64].try_into().unwrap();
+                let pk = cryptoxide::ed25519::extended_to_public(&ext);
+                ctx.hit("daedalus-key-outside-normal-form");
+                let sig_w = make_daedalus_bootstrap_witness(&th, &addr, &dk);
+                if sig_w.vkey().public_key().as_bytes() != pk {
+                    ctx.violation(format!("{}/witness-carries-another-public-key/make_daedalus_bootstrap_witness", P), what());
+                }
+                if !verify_ref(&pk, &hash, &sig_w.signature().to_bytes()) {
+                    ctx.violation(format!("{}/witness-signature-not-over-the-given-hash/make_daedalus_bootstrap_witness", P), format!("key outside normal form ; {}", what()));
+                }
+                if sig_w.chain_code() != kb[64..96] || dk.as_bytes() != kb {
+                    ctx.violation(format!("{}/bootstrap-witness-chain-code/daedalus", P), what());
+                }
+                return;
+            } else {
+                k
+            };
             let w = make_daedalus_bootstrap_witness(&th, &addr, &dk);
             if w.chain_code() != dk.chaincode() || dk.chaincode() != k.chaincode() {
                 ctx.violation(format!("{}/bootstrap-witness-chain-code/daedalus", P), what());
@@ -677,6 +702,7 @@ pub fn run(tier: Tier, seed: u64) -> i32 {
         "encodings:normal-key",
         "encodings:extended-key",
         "witness-signs-the-hash",
+        "daedalus-key-outside-normal-form",
         "soft-derivation-commutes",
         "soft-derivation-commutes-at-max-soft-index",
         "hardened-from-public-refused",
